@@ -202,9 +202,9 @@ theorem refNamesStore_delStore {s : List (String × Obj)} {m : String} (hs : Ref
   · subst hk; rw [lookupStore_delStore_self] at h; cases h
   · rw [lookupStore_delStore_ne _ _ _ hk] at h; exact hs k re rn h
 
-theorem goodUpd_set {n m : String} {f : Frame} {val : Obj} {ns : Nat} (hm : m ≠ n) (hs : RefNamesStore f.store)
+theorem goodUpd_set {n m : String} {f : Frame} {val : Obj} {ns : Nat} {lf : Bool} (hm : m ≠ n) (hs : RefNamesStore f.store)
     (hv : ∀ re rn, val = .ref re rn → rn = m) :
-    GoodUpd n f { f with store := setStore f.store m val, numSet := ns } :=
+    GoodUpd n f { f with store := setStore f.store m val, numSet := ns, localFunc := lf } :=
   ⟨rfl, lookupStore_setStore_ne _ _ _ _ (Ne.symm hm), refNamesStore_setStore hs hv⟩
 
 theorem goodUpd_del {n m : String} {f : Frame} (hm : m ≠ n) (hs : RefNamesStore f.store) :
